@@ -538,6 +538,7 @@ def run(ck, info, pr):
             ck.disagreement("parser model differs from prql_to_pl", {"src": "let v = " + s + "\n", "model": str(val)[:400], "real": str(want)[:400]}, None)
 
     run_programs(ck, symidx)
+    run_interpolations(ck)
     run_literals(ck, info)
 
 
@@ -653,6 +654,54 @@ def run_programs(ck, symidx):
         got = unlist(val[1]) if isinstance(val, tuple) and val[0] == "Some" else None
         if got != unlist(want):
             ck.disagreement("statement parser model differs from prql_to_pl", {"src": text, "model": str(val)[:400], "real": str(want)[:400]}, None)
+
+
+def run_interpolations(ck):
+    """s-/f-strings (fmt_interpolation_roundtrip): for generated canonical part lists the model's token text, used as
+    source, must parse -- real lexer, real interpolation parser -- to exactly those parts, and format to itself"""
+    rng = ck.rng
+    STR = ["a", " ", "{", "}", '"', "'", "\\", "\n", "é", ":", ".", "`", "$", "SELECT ", "{{", "}}", "\t"]
+    NAMES = ["a", "x1", "_y", "b c", "let", "true", "", "é", "{x}", "a.b", 'q"q', "back\\slash", "a}b", "a:b", "t"]
+    FMTS = [None, None, ">10", ".2f", "", " ", "\\", '"q"', "a:b", "{", "x y"]
+    cases = []
+    for _ in range(ck.n(160, 3000)):
+        parts = []
+        for _ in range(rng.randint(0, 5)):
+            if rng.random() < 0.5:
+                st = "".join(rng.choice(STR) for _ in range(rng.randint(1, 4)))
+                if parts and parts[-1][0] == "IStr":
+                    parts[-1] = ("IStr", parts[-1][1] + st)
+                else:
+                    parts.append(("IStr", st))
+            else:
+                parts.append(("IExpr", [rng.choice(NAMES) for _ in range(rng.randint(1, 3))], rng.choice(FMTS)))
+        cases.append((rng.random() < 0.5, parts))
+    cases += [(False, []), (True, [("IStr", "{")]), (False, [("IStr", '"')]), (False, [("IExpr", [""], "")]), (True, [("IStr", " \n ")])]
+
+    def cq(parts):
+        return "[" + "; ".join("(IStr %s)" % coq(codes(p[1])) if p[0] == "IStr" else
+                               "(IExpr %s %s)" % (coq([codes(x) for x in p[1]]), ("(Some %s)" % coq(codes(p[2]))) if p[2] is not None else "None") for p in parts) + "]"
+    hdr = HEADER + "From PV Require Import Proofs.FmtInterpProofs.\n"
+    vals = coq_eval(hdr, ["(interp_text R_prql %s %s, FmtInterpProofs.canon %s)" % ("true" if sql else "false", cq(parts), cq(parts)) for sql, parts in cases])
+    texts = ["".join(chr(c) for c in v[0]) for v in vals]
+    ans = harness("c14", [{"src": "let v = " + t + "\n", "targets": [], "compile": False} for t in texts])
+    for (sql, parts), v, text, a in zip(cases, vals, texts, ans):
+        ck.count("corr-interp", text)
+        case = {"parts": str(parts), "model_text": text}
+        if not v[1]:
+            ck.disagreement("a generated part list is not canonical in the model", case, None)
+            continue
+        want = [{"String": p[1]} if p[0] == "IStr" else {"Expr": {"expr": {"Ident": p[1]}, "format": p[2]}} for p in parts]
+        got = None
+        if isinstance(a, dict) and "pl" in a:
+            val = value_of(O.strip(a["pl"]))
+            got = (val or {}).get("SString" if sql else "FString")
+        ck.stat("corr-interp", "parts:%d" % len(parts))
+        if got != want:
+            ck.disagreement("the interpolation text of the model does not parse back to its parts", dict(case, real_parts=str(got)[:300]), None)
+            continue
+        if a.get("fmt") != "let v = " + text + "\n":
+            ck.disagreement("interp_text differs from display_interpolation", dict(case, real_fmt=a.get("fmt")), None)
 
 
 def drop_parens(rng, s):
